@@ -105,12 +105,22 @@ def instance_desc(base_pos, cells, k, sim=None, id_offset=0, id_stride=1, bulge=
     vorder = list(model.keys())
     if shuffle_rng is not None:
         shuffle_rng.shuffle(vorder)
+        # cell ids in an order unrelated to the construction order (cells are still inserted in construction order)
+        cids = [c[0] for c in cdesc]
+        perm = cids[:]
+        shuffle_rng.shuffle(perm)
+        cdesc = [[perm[i], cyc] for i, (_, cyc) in enumerate(cdesc)]
     V = []
     for vid in vorder:
         x, y = sim.apply(model[vid])
         V.append([vid, x, y])
     from harness.build import edges_from_cells
     E = edges_from_cells(cdesc, first_id=id_offset)
+    if shuffle_rng is not None:
+        eids = [e[0] for e in E]
+        perm = eids[:]
+        shuffle_rng.shuffle(perm)
+        E = [[perm[i], a, b] for i, (_, a, b) in enumerate(E)]
     return {"V": V, "E": E, "C": cdesc}, {"model": model, "newid": newid, "interior": interior}
 
 
